@@ -16,8 +16,8 @@ from ginsim import probes, sched, shrink, world
 
 ID = 'C20'
 LEVEL = 'exploration'
-QUICK_RUNS = 3000
-THOROUGH_RUNS = 60000
+QUICK_RUNS = 10000
+THOROUGH_RUNS = 250000
 SHRINK_BUDGET = 250
 RULE = ('run i draws from Random("<seed>/C20/<i>") a prefix history of 2-20 '
         'operations over the union alphabet (parse with bindings / macros / '
